@@ -257,7 +257,8 @@ impl St {
         let cur = self.cur;
         match t[0] {
             "new" => {
-                let caps: Vec<usize> = t[1..].iter().map(|x| x.parse().unwrap()).collect();
+                let mut caps: Vec<usize> = t[1..].iter().map(|x| x.parse().unwrap()).collect();
+                caps.resize(NARCH.max(caps.len()), 0); // an ops file generated under another arity
                 let r = guard(|| {
                     Wa::with_capacity(WaCapacity {
                         aa: caps[0],
